@@ -10,7 +10,10 @@ fn main() {
     let args: Vec<String> = std::env::args().collect();
     let cmd = args.get(1).map(|s| s.as_str()).unwrap_or("");
     // panics inside the code under test are data; keep the default hook quiet
-    std::panic::set_hook(Box::new(|_| {}));
+    std::panic::set_hook(Box::new(|info| {
+        let loc = info.location().map(|l| format!("{}:{}", l.file(), l.line())).unwrap_or_default();
+        world::LAST_PANIC_LOC.with(|c| *c.borrow_mut() = loc);
+    }));
     match cmd {
         "sm" => {
             // scenarios: ndjson on stdin or file arg; logs: ndjson on stdout or file arg
